@@ -103,6 +103,9 @@ def escaped_key(exc, scenario, content=None):
     from islamon import patches
     if scenario in ("repair", "mutate") and patches.is_returns_drift(exc):
         return KF_DRIFT
+    if scenario in ("repair", "mutate"):
+        from islamon.worker import exc_site
+        return f"C19:{scenario}:" + ":".join(exc_site(exc)) + "-escapes"
     return None
 
 
@@ -211,6 +214,16 @@ def judge_check(ctx, box, gname, g, m, rng):
         if isinstance(ref, tuple):
             return ctx.inconclusive("R2-abstains")
         exp = 0 if ref else 1
+    if code == 65:
+        # a well-formed constraint was rejected: find out which known parse-time defect did it
+        from isla.language import parse_isla
+        from isla.isla_predicates import STANDARD_STRUCTURAL_PREDICATES as SP, STANDARD_SEMANTIC_PREDICATES as MP
+        key = None
+        for t in texts:
+            st_, e_ = ctx.guarded(parse_isla, t, g, SP, MP, timeout=20)
+            if st_ == "exc" and "does not match actual number of symbols" in str(e_):
+                key = "C19:constraint-rejected:smtformula-neg-simplified-away-variable"
+        return ctx.violation(key, f"isla check exits 65 for a well-formed constraint; stderr: {err.strip()[-120:]}", wit)
     if code != exp:
         key = None
         if member:
@@ -341,7 +354,8 @@ def judge_malformed(ctx, box, rng):
     if kind == "watchdog":
         return ctx.inconclusive("watchdog")
     if kind == "escaped":
-        return ctx.violation(None, f"isla {cmd}: {type(code).__name__} escapes main() on a malformed {which}: {str(code)[:80]}", wit)
+        key = KF_UNDEF if "Grammar has no rules for" in str(code) else None
+        return ctx.violation(key, f"isla {cmd}: {type(code).__name__} escapes main() on a malformed {which}: {str(code)[:80]}", wit)
     if code != 65 or not err.strip():
         key = KF_JUNK if name == "valid-prefix-then-junk" else None
         return ctx.violation(key, f"malformed {which} ({name}): exit {code}, stderr {'empty' if not err.strip() else 'present'}; expected 65 with a message", wit)
